@@ -103,7 +103,7 @@ def undefined_sigs(stms):
     """predicates occurring in rules / objectives that never occur as a positive head atom"""
     occ = set()
     for s in stms:
-        if s.ast_type in (ASTType.Rule, ASTType.Minimize):
+        if s.ast_type in (ASTType.Rule, ASTType.Minimize, ASTType.Edge, ASTType.Heuristic, ASTType.External, ASTType.ShowTerm, ASTType.ProjectAtom):
             occ |= all_sigs(s)
     return occ - defined_sigs(stms)
 
